@@ -175,6 +175,12 @@ var (
 		"    Age string `valid:\"re='\\\\d+'\"`\n" +
 		"}")
 
+	datetimeErr = errors.New(defaultTargetTag + " \"datetime\" is not ok, eg: " +
+		"type Test struct {\n" +
+		"    Time1 string `valid:\"datetime\"`\n" + // 默认: 1996-09-28 23:00:00
+		"    Time2 string `valid:\"datetime='/, ,:'\"`\n" + // 最多 3 个分隔符: [年月日], [年月日 时分秒], [时分秒]
+		"}")
+
 	intsErr = errors.New(defaultTargetTag + " \"ints\" is not ok, eg: " +
 		"type Test struct {\n" +
 		"    Hobby1 string `valid:\"ints\"`\n" + // 默认按 "," 进行分割对字符串进行判断是否为整数
